@@ -149,12 +149,15 @@ def case(c):
             if i + 1 < n and wires(gs[i][1]) & wires(gs[i + 1][1]):
                 edits.append(("swap-adjacent-dependent", lambda q, i=i: q.operations.__setitem__(slice(i, i + 2), [q.operations[i + 1], q.operations[i]])))
         edits.append(("change-version", lambda q: setattr(q, "_version", "1.1")))
+        edits.append(("change-version-same-number", lambda q: setattr(q, "_version", q.version + "0")))
         edits.append(("change-target", lambda q: q.target.__setitem__("name", "other")))
         edits.append(("remove-or-add-target", lambda q: q.target.__setitem__("name", None if q.target.get("name") else "g")))
         for ne, (name, f) in enumerate(edits):
             # the edit is applied to a program that has ALREADY been matched successfully (in place, or on a deep copy
             # of the matched object): anything remembered from the first match must not survive the edit
-            q = copy.deepcopy(inst)
+            # two edits in three work on a deep copy of the instance, the third on a FRESH instance edited in place
+            # (what an instance shares with its template, an in-place edit would change in the template too)
+            q = copy.deepcopy(inst) if ne % 3 != 2 else t(**v)
             if ne % 3 != 2:
                 try:
                     match_template(t, q)
@@ -163,12 +166,12 @@ def case(c):
                 if ne % 3 == 1:
                     q = copy.deepcopy(q)
             f(q)
-            if name == "change-version" and q.version == t.version:
+            if name.startswith("change-version") and q.version == t.version:
                 continue      # the edit had no effect (internal attribute renamed): nothing to check
             if name in ("change-target", "remove-or-add-target") and q.target.get("name") == t.target.get("name"):
                 continue
             pops = [(o["op"], list(o["modes"])) for o in q.operations]
-            still = name not in ("change-version", "change-target", "remove-or-add-target") and ref_instance_possible(tops, pops)
+            still = name not in ("change-version", "change-version-same-number", "change-target", "remove-or-add-target") and ref_instance_possible(tops, pops)
             nmatch += 1
             try:
                 r = match_template(t, q)
